@@ -101,6 +101,7 @@ def _cases(rng, n):
     _cases_t7(rng, n, reqs, want)  # --- T7
     _cases_t9(rng, n, reqs, want)  # --- T9
     _cases_t15(rng, n, reqs, want)  # --- T15
+    _cases_t16(rng, n, reqs, want)  # --- T16
     # --- T11: `sorted(xs)` of ints (duplicates, negatives, already sorted / reversed inputs)
     for _ in range(n // 2):
         xs = [rng.randrange(-9, 10) for _ in range(rng.randrange(0, 9))]
@@ -181,6 +182,70 @@ def _cases_t9(rng, n, reqs, want):
         want.append(("raw", {"dict": [[str(k), v] for k, v in dict(ps).items()], "index": ex(lambda: ps[i], lambda p: [str(p[0]), p[1]]),
                              "map": ex(lambda: [int(v) for _k, v in ps], lambda l: [str(x) for x in l]), "fold": ex(fold, str)}))
 # --- end T9
+
+
+# --- T16: the prelude functions of the `--- T16` block of OQ/Exec/Py.lean (ops `t16_*` of the driver)
+def _cases_t16(rng, n, reqs, want):
+    """--- T16: `max(a, b)` / `-a` on numeric values (Fractions), the DOMAIN ERROR of `math.log` (ValueError iff the argument is not
+    positive; the value is an external), `int(s, 2)` on strings over digits and signs, `set(xs).union(ys)` (compared as the list of
+    distinct elements in order of first occurrence AND, as a set, with CPython's own union), and the numpy operations of the kernels of
+    `mmd.py` on object / float arrays: `x[:, None] - y[None, :]`, `np.abs`, `** 2`, `astype(float)`, `c * m`, a ufunc applied
+    elementwise (`np.frompyfunc`), `np.zeros(m.shape)`, `m + m'`, `m / k`, `u - v`, `u.dot(v)`, `m.dot(v)`.  Expected values come from
+    CPython / numpy themselves."""
+    import math
+    from fractions import Fraction
+    import numpy as np
+
+    def R(f):
+        f = Fraction(f)
+        return str(f.numerator) if f.denominator == 1 else f"{f.numerator}/{f.denominator}"
+
+    def exc(thunk, conv):
+        try:
+            return {"ok": conv(thunk())}
+        except ValueError:
+            return {"err": "value"}
+    m = max(n // 2, 40)
+    for _ in range(m):
+        a = Fraction(rng.randrange(-8, 9), rng.choice([1, 2, 3, 8]))
+        b = rng.choice([a, Fraction(0), Fraction(rng.randrange(-8, 9), rng.choice([1, 2, 5]))])
+        reqs.append(("t16_num", {"a": R(a), "b": R(b)}))
+        want.append(("raw", {"max": R(max(a, b)), "neg": R(-a), "log": exc(lambda: (math.log(float(a)), a)[1], R)}))
+    strs = ["", "0", "1", "10", "0101", "2", "12", "102", "-1", "+1", "-", "+", "--1", "1-1", "-0", "00", "9", "1" * 70]
+    strs += ["".join(rng.choice("0101012-+") for _ in range(rng.randrange(0, 7))) for _ in range(m)]
+    for s in strs:  # documented domain of intBase2E: digits and signs (no whitespace / underscore / 0b prefix)
+        reqs.append(("t16_int2", {"s": s})); want.append(("raw", exc(lambda: int(s, 2), str)))
+    for _ in range(m):
+        xs = [rng.randrange(0, 7) for _ in range(rng.randrange(0, 6))]
+        ys = [rng.randrange(0, 9) for _ in range(rng.randrange(0, 6))]
+        first = list(dict.fromkeys(xs + ys))
+        assert set(first) == set(xs).union(ys) and len(first) == len(set(xs).union(ys))
+        reqs.append(("t16_set", {"xs": xs, "ys": ys})); want.append(("raw", first))
+    for _ in range(m):
+        x = [rng.randrange(0, 40) for _ in range(rng.randrange(0, 4))]
+        y = [rng.randrange(0, 40) for _ in range(rng.randrange(0, 4))]
+        c = Fraction(rng.randrange(-9, 10), rng.choice([1, 2, 4]))
+        k = rng.choice([1, 2, 3, 5, -2])
+        ln = rng.randrange(1, 4)
+        u = [Fraction(rng.randrange(-6, 7), rng.choice([1, 2, 4])) for _ in range(ln)]
+        v = [Fraction(rng.randrange(-6, 7), rng.choice([1, 2, 4])) for _ in range(ln)]
+        X, Y = np.asarray(x, dtype=object), np.asarray(y, dtype=object)
+        U, V = np.array(u, dtype=object), np.array(v, dtype=object)
+        o = X[:, None] - Y[None, :]
+        e = (np.abs(o) ** 2).astype(float)
+        eq = np.array([[Fraction(t) for t in row] for row in e.tolist()], dtype=object).reshape(e.shape)
+        sc = c * eq
+        sq = np.array([list(u) for _ in u], dtype=object)
+
+        def mat(a, conv):
+            return [[conv(t) for t in row] for row in a.tolist()]
+        reqs.append(("t16_np", {"x": x, "y": y, "c": R(c), "k": k, "u": [R(t) for t in u], "v": [R(t) for t in v]}))
+        want.append(("raw", {
+            "outer": mat(o, str), "abs": mat(np.abs(o), str), "pow": mat(np.abs(o) ** 2, str), "float": mat(e, R), "scale": mat(sc, R),
+            "map": mat(np.frompyfunc(lambda t: t * t + 1, 1, 1)(sc) if sc.size else sc, R), "zeros": mat(np.zeros(e.shape), R),
+            "add": mat(eq + sc, R), "div": mat(sc / k, R), "sub": [R(t) for t in (U - V).tolist()], "dot": R(U.dot(V)),
+            "matvec": [R(t) for t in sq.dot(V).tolist()]}))
+# --- end T16
 
 
 def _cases_t2(rng, n, reqs, want):
@@ -568,7 +633,7 @@ def _cases_t15(rng, n, reqs, want):
                 "arrayrows": exc(arrayrows, lambda v: v)}))
 # --- end T15
 
-_STRUCTURED = ("t2_", "t4_", "t14_", "t7_", "t9_", "t15_")  # prelude ops whose answers are structured (compared after normalising ints)
+_STRUCTURED = ("t2_", "t4_", "t14_", "t7_", "t9_", "t15_", "t16_")  # prelude ops whose answers are structured (compared after normalising ints)
 
 
 def run(seed=0, n=120):
